@@ -234,4 +234,18 @@ def inRangeProg (p : Prog) (ρ : String → Bool) : Bool :=
   | some ⟨_, none⟩ => true
   | _ => false
 
+/-- number of low bits claimed of a value of width `w` -/
+def claimWidth (w : Nat) : Option Nat → Nat
+  | none => w
+  | some j => min j w
+
+/-- what the property claims of the return bits: for every bit of the declared type (in the order of
+the return symbols) the bit the python value has, or `none` where nothing is claimed (beyond the low
+`k` bits of a value that left its range) -/
+def XVal.claim : XVal → List (Option Bool)
+  | ⟨.bool b, k⟩ => [match k with | none => some b | some _ => none]
+  | ⟨.int w x, k⟩ =>
+    (toBitsLE (claimWidth w k) (x % (2 : Int) ^ claimWidth w k).toNat).map some
+      ++ List.replicate (w - claimWidth w k) none
+
 end QV.Sem
